@@ -1,6 +1,6 @@
 //go:build verif
 
-package k12
+package k12_test
 
 // C14 for xof/k12: KangarooTwelve (draft-10) through NewDraft10, which picks the number of lanes from
 // keccakf1600.IsEnabledX4/X2: 4 lanes with AVX2 (also in the purego build, where the 4-way permutation
@@ -13,12 +13,12 @@ import (
 
 	"github.com/cloudflare/circl/internal/verifc14"
 	"github.com/cloudflare/circl/internal/verifmc"
+	"github.com/cloudflare/circl/xof/k12"
 )
 
 func TestVerifC14_k12(t *testing.T) {
 	c := verifc14.Start(t, "k12")
-	probe := NewDraft10(nil)
-	c.Backend("xof/k12 State.lanes chosen by NewDraft10", fmt.Sprintf("lanes=%d", probe.lanes), func(f verifc14.Features) string {
+	c.BackendOptional("xof/k12 State.lanes chosen by NewDraft10", k12.C14ReadLanes, func(f verifc14.Features) string {
 		if f.AVX2 { // IsEnabledX4() reads the CPU bit in every build
 			return "lanes=4"
 		}
@@ -26,7 +26,7 @@ func TestVerifC14_k12(t *testing.T) {
 	})
 	c.BackendFromFeatures("simd/keccakf1600 4-way permutation", verifc14.X4Sel)
 	r := c.R
-	const B = chunkSize
+	const B = 8192 // chunk size of KangarooTwelve (the package keeps it unexported)
 	lens := []int{0, 1, 167, 168, 169, B - 1, B, B + 1, 2*B - 1, 2 * B, 2*B + 1, 3*B + 1, 4*B - 1, 4 * B, 4*B + 1, 5*B - 1, 5 * B, 5*B + 1, 8*B - 1, 8 * B, 8*B + 1, 9*B + 1, 13*B + 5}
 	if r.Thorough() {
 		lens = append(lens, 3*B-1, 3*B, 6*B+1, 7*B, 12*B+1, 16*B+1, 17*B-1, 33*B+7)
@@ -72,13 +72,13 @@ func TestVerifC14_k12(t *testing.T) {
 		c.Case(fmt.Sprintf("K12#len=%d/cust=%d", j.l, j.cl), func(d *verifc14.D) {
 			m, cs := msg[:j.l], cust[:j.cl]
 			out := make([]byte, 32)
-			Draft10Sum(out, m, cs)
+			k12.Draft10Sum(out, m, cs)
 			d.Bytes("sum32", out)
 			d.Exec(1)
 			for si, sp := range splits(j.l) {
-				s := NewDraft10(cs)
+				s := k12.NewDraft10(cs)
 				off := 0
-				var clone State
+				var clone k12.State
 				for pi, n := range sp {
 					_, _ = s.Write(m[off : off+n])
 					off += n
